@@ -3,10 +3,10 @@ from checks import rapid, plain, fuzz, REPLAY
 CHECK = dict(
     pkg="c09", level="exploration",
     rule="round trip: image graph (imggen, as C03, incl. OCI manifests without the optional mediaType field) x source (registry model / OCI layout) x gzip x export-ref override x source ref (tag / tag+digest) x target "
-         "(registry model, rejecting manifests with absent references or not / OCI layout) x target pre-state (empty / partial / stale tag) x 0-3 metamorphic archive "
+         "(registry model, rejecting manifests with absent references or not / OCI layout) x target pre-state (empty / partial / stale tag) x source ref form (tag / tag+digest / digest only / default tag / tag of the index + digest of one of its images = `regctl image export --platform`) x target ref form (tag / digest / tag+digest / default tag) x sha512-named blobs and manifests x source blob redirect x upload chunk size of the importing client x complete pre-state x second import into the same target x probes (export / import under a cancelled or concurrently cancelled context, export into a failing writer: only a nil return is judged) x 0-3 metamorphic archive "
          "variants (entry order, ./ prefix, dropped directory members, members replaced by symlinks / hard links / symlink chains to a moved copy in three placements, "
-         "unrelated extra members, outer gzip as one or several gzip members, two-image archive with selection by name / tag / digest). Docker: harness-built legacy / content-addressed / OCI-flavoured "
-         "`docker save` archives with real tar layers stored plain / gzip (1-4 members, incl. empty ones) / zstd, 1-3 images, duplicate layers (symlink / copy / same path), selection by name, plus the "
+         "unrelated extra members, duplicated members, PAX / USTAR / GNU headers, outer gzip as one or several gzip members, two-image archive (ref.name bare tag or full image name) with selection by name / tag / digest). Docker: harness-built legacy / content-addressed / OCI-flavoured "
+         "`docker save` archives with real tar layers stored plain / gzip (1-4 members, incl. empty ones) / zstd, 1-3 images, duplicate layers (symlink / copy / same path), sha512 blob names, ./ paths in manifest.json, files of 32 KiB +-1 / 70 kB, selection by name, plus the "
          "same order / prefix / link / gzip variations. Non-trivial = graph has an index, a shared/duplicate blob or a blob-typed index entry, or the case imports at "
          "least one archive variant (Docker: the picked image has a layer); distinct by (graph shape, endpoints, options, pre-state, variant feature sets) resp. "
          "(style, image/layer shape, selection, duplicate style, target, variant feature set).",
